@@ -1,4 +1,5 @@
 import ClusterVerif.Model.C16
+import ClusterVerif.Model.C16Aux
 /-!
 # C16 — the property, clause by clause, over what a run *shows*
 
@@ -144,5 +145,43 @@ def wf (i : Input) : Bool :=
        !(i.op == .pin && i.depth == 0 && clsFirst (i.beh 1) == .honestAny)
    | none => true) &&
   !(i.op == .unpin && clsAt false (i.beh 0) == .notPinned && held (i.table i.cid))
+
+/-! ### the rest of the connector (one request each) -/
+namespace Aux
+
+/-- success is reported only for a reply the daemon sent as a success and that arrived completely:
+daemon failures (any status but 200, whatever the body says) and transport failures are errors -/
+def cSuccessSound (i : In) (r : Res) : Bool :=
+  !r.isOk || (i.beh.status == 200 && i.beh.transport == .full)
+
+/-- Resolve hands back the CID the daemon named, never something else -/
+def cResolveCid (i : In) (r : Res) : Bool :=
+  match r with
+  | .ok a _ => !(i.op == .resolve) || a == 1
+  | _ => true
+
+/-- RepoGC keeps the per-key errors the daemon streamed -/
+def cGcErrorsKept (i : In) (r : Res) : Bool :=
+  match r with
+  | .ok a b => !(i.op == .repoGC && i.beh.body == .expected && i.variant % 3 == 1) || (a == 2 && b == 1)
+  | _ => true
+
+/-- a well-formed success reply is reported as a success -/
+def cGoodReplyOk (i : In) (r : Res) : Bool :=
+  !(i.beh.status == 200 && i.beh.transport == .full && i.beh.body == .expected &&
+      (i.op == .blockGet || i.op == .blockPut || i.op == .resolve || i.op == .repoGC)) || r.isOk
+
+def cReturns (r : Res) : Bool := r != .hang && r != .panic && r != .errctx
+
+def clauses (i : In) (r : Res) : List (String × Bool) :=
+  [ ("aux_success_sound", cSuccessSound i r),
+    ("aux_resolve_cid", cResolveCid i r),
+    ("aux_gc_errors_kept", cGcErrorsKept i r),
+    ("aux_good_reply_ok", cGoodReplyOk i r),
+    ("aux_returns", cReturns r) ]
+
+def holds (i : In) (r : Res) : Bool := (clauses i r).all (·.2)
+
+end Aux
 
 end CV.C16
